@@ -59,6 +59,21 @@ def corpus(rng, n):
     for _ in range(n // 4):
         h = genlib.gen_ipv6(rng)
         lines.append(f"seqagg - {hx(b'http://' + h + b'/')} !")
+    # URLPattern's canonicalisation callbacks and process_* steps, called directly (every build has them; the development-checks build
+    # must not assert: known_findings fixed C18 cd21e04 - process_hash("##x"))
+    import patcanoncorr
+    enc = lambda t: hx(t.encode("utf-8", "surrogateescape"))
+    for _ in range(n // 6):
+        c = rng.choice(patcanoncorr.COMPS)
+        v = patcanoncorr.gen_value(rng, c)
+        if c in ("p.port", "p.pathname"):
+            lines.append(f"patcanon {c} {enc(v)} {enc(rng.choice(['', 'http', 'https', 'foo', 'file']))} {rng.choice(['T=p', 'T=u'])}")
+        elif c.startswith("p.") or c in ("procbase", "isabs"):
+            lines.append(f"patcanon {c} {enc(v)} {enc(rng.choice(['p', 'u']))}")
+        elif c == "portproto":
+            lines.append(f"patcanon {c} {enc(v)} {enc(rng.choice(patcanoncorr.PROTOS))}")
+        else:
+            lines.append(f"patcanon {c} {enc(v)} -")
     return lines
 
 
